@@ -380,7 +380,7 @@ Proof.
   rewrite R. destruct (i <? 0) eqn:N; cbn [negb]; [reflexivity|].
   rewrite lib_passes_correct; try assumption.
   - destruct (lib_valid op i size impl); reflexivity.
-  - apply in_rangeb_spec. rewrite R, N. reflexivity.
+  - apply in_rangeb_spec. rewrite R. reflexivity.
 Qed.
 
 (* ---------------------------------------------------------------- non-vacuity examples *)
@@ -429,6 +429,5 @@ Proof.
     apply andb_prop in T. destruct T as [T _]. apply andb_prop in T. destruct T as [T _].
     apply Bool.eqb_prop in T. unfold needs_check. rewrite T. reflexivity.
   - exact conv_sites_ok.
-  - repeat split; try (apply cexpr_eqb_eq; vm_compute; reflexivity).
-    cbn [lib_pre]. f_equal. apply cexpr_eqb_eq. vm_compute. reflexivity.
+  - repeat split; apply cexpr_eqb_eq || (cbn [lib_pre]; f_equal; apply cexpr_eqb_eq); vm_compute; reflexivity.
 Qed.
